@@ -414,7 +414,7 @@ class VariantIntervalCollection(AbstractFeatureIntervalCollection):
             ids = [id_or_ids]
         else:
             ids = id_or_ids
-        variant_intervals = [self.guid_map[i] for i in ids if i in self.guid_map]
+        variant_intervals = [self.guid_map[i] for i in dict.fromkeys(ids) if i in self.guid_map]
         if variant_intervals:
             return VariantIntervalCollection(
                 variant_intervals=variant_intervals,
